@@ -148,14 +148,19 @@ func (k *KafkaSarama) inputMsg(topic string, mCh chan []byte, ec *uint64) {
 			break
 		}
 
-		select {
-		case k.producer.Input() <- &sarama.ProducerMessage{
-			Topic: topic,
-			Value: sarama.ByteEncoder(msg),
-		}:
-		case err := <-k.producer.Errors():
-			k.logger.Println(err)
-			*ec++
+		// errors of earlier messages are reported asynchronously; reading one of
+		// them must not cost the message in hand
+		for sent := false; !sent; {
+			select {
+			case k.producer.Input() <- &sarama.ProducerMessage{
+				Topic: topic,
+				Value: sarama.ByteEncoder(msg),
+			}:
+				sent = true
+			case err := <-k.producer.Errors():
+				k.logger.Println(err)
+				*ec++
+			}
 		}
 	}
 
